@@ -168,15 +168,13 @@ def _cookie_builders(ctx):
                 direct.setdefault(b.nroot, []).append((b, bb, t))
             if c.startswith('pavex_session::'):
                 callers.setdefault(strip_generics(c), set()).add(b.nroot)
+    # the family of Session::finalize: finalize plus every function of the crate all of whose callers inside the crate are in the family
     ok = {FINALIZE}
     changed = True
     while changed:
         changed = False
-        for h in direct:
-            if h in ok:
-                continue
-            cs = callers.get(h, set())
-            if cs and cs <= ok:
+        for h, cs in callers.items():
+            if h not in ok and cs and cs <= ok:
                 ok.add(h)
                 changed = True
     return direct, ok, callers
@@ -299,14 +297,10 @@ def r3_attribute_plumbing(ctx):
         return
     fields = set(fields) | {'ttl'}
     seen = {'ResponseCookie': set(), 'RemovalCookie': set()}
-    direct, okset, _ = _cookie_builders(ctx)
-    work = []
-    for h, sites in direct.items():
-        if h in okset:
-            for hb in {id(x[0]): x[0] for x in sites}.values():
-                work.append(hb)
-    if body not in work:
-        work.append(body)
+    # Session::finalize with the private helpers it was split into inlined (P13): every builder / setter call is then in one body, under
+    # the branch conditions of its callers
+    from ..inline import inlined
+    work = [inlined(ctx.fb, body)]
     fin_body = body
     for body in work:
       defs = Defs(body)
